@@ -9,6 +9,10 @@ spec/C12/CfgArea.tla     the area as a state machine: Template / LoadConfig / Se
        the canonical schedules (and a seeded subset through the generated ones) on 16 cores; layouts come from the database
        files, observations (raw value of every leaf register, values decoded from the exported bytes, sizes, facts) are logged
  TV  : CfgAreaTrace recomputes every step; the first failing clause of a rejected trace names the finding.
+ size / control dimension: CfgArea.tla defines the case space (SizeCtrlCases: size class x control level) for areas whose configuration carries a
+       DERIVED size bit-field (XMCD header.configurationBlockSize) and / or a CONTROL bit-field that decides which registers exist (XMCD optionSize, option
+       word OptionSize / AcTimingMode); CfgAreaMC explores it on the small layouts (lemmas ExportedSizeHolds, AnnouncedSizeIgnored), CfgAreaGen prints it
+       and generates case steps, sched_sizectrl runs every case on every such area, CfgAreaTrace classifies what was really loaded (COV / APPL lines).
 """
 import copy
 import hashlib
@@ -113,6 +117,144 @@ def targets(lay):
         if r["parent"] == 0 and not r["comp"] and A.config_faithful(r):
             res["reg"].append(i)      # (registers whose bit-fields cannot carry every value are reported by the Layout clauses, not written whole)
     return res
+
+
+# ------------------------------------------------------------------ control bit-fields and the size bit-field (generator side)
+# The CASES (size class x control level) are enumerated by TLC (SizeCtrlCases of CfgArea.tla, printed by CfgAreaGen); the functions below
+# only CONCRETISE a case on a real layout.  Whether a concrete configuration really belongs to the case it was made for is decided by
+# the trace form (COV lines), as is every observation; a wrong computation here can only end in a machinery failure, never in a verdict.
+def ctrl_fields(lay):
+    """(register, bit-field) pairs that the condition of some register names, in layout order."""
+    res = []
+    for x in lay["regs"]:
+        c = x["cond"]
+        if c["c"] and (c["c"], c["f"]) not in res:
+            res.append((c["c"], c["f"]))
+    return res
+
+
+def cond_holds(c, val):
+    return {"ne": val != c["k"], "eq": val == c["k"], "ge": val >= c["k"]}.get(c["op"], True)
+
+
+def ctrl_menu(lay, c, f):
+    """Boundary values of a control bit-field: around every threshold a condition names, and both ends of its range."""
+    top = (1 << lay["regs"][c - 1]["fields"][f - 1]["width"]) - 1
+    ks = {x["cond"]["k"] for x in lay["regs"] if (x["cond"]["c"], x["cond"]["f"]) == (c, f)}
+    return sorted({v for k in ks for v in (k - 1, k, k + 1) if 0 <= v <= top} | {0, top})
+
+
+def ctrl_state(lay, vals):
+    """(control level, size in bytes of the registers that exist) when the control bit-fields hold `vals` {(c, f): value}."""
+    n = nc = size = 0
+    for x in lay["regs"]:
+        if x["kind"] != "leaf":
+            continue
+        c = x["cond"]
+        if not c["c"]:
+            size += x["width"] // 8
+            continue
+        nc += 1
+        if (c["c"], c["f"]) not in vals:
+            return None, None
+        if cond_holds(c, vals[(c["c"], c["f"])]):
+            n += 1
+            size += x["width"] // 8
+    return ("max" if n == nc else "min" if n == 0 else "mid"), size
+
+
+def size_menu(lay, cls, size, others):
+    """Values of the size bit-field of one class relative to the real size: nearest boundary first, then the ends of the range, the size
+    of the header alone, the sizes the other control levels would have."""
+    sf = lay.get("sizefld") or {"r": 0}
+    top = (1 << lay["regs"][sf["r"] - 1]["fields"][sf["f"] - 1]["width"]) - 1
+    hs = lay.get("hsize", 4)
+    if cls == "eq":
+        menu = [size]
+    elif cls == "lt":
+        menu = [size - 1, 0, hs] + sorted(o for o in others if o < size) + [size - 4, 1, size // 2]
+    else:
+        menu = [size + 1, top] + sorted(o for o in others if o > size) + [size + 4, 2 * size, top - 1]
+    res = []
+    for v in menu:
+        if 0 <= v <= top and v not in res and ((cls == "eq") or (cls == "lt" and v < size) or (cls == "gt" and v > size)):
+            res.append(v)
+    return res
+
+
+def present_field(fl, stored, r):
+    """A bit-field value as a configuration would present it: number, hex / decimal string, or the enum name that stands for it."""
+    v = stored << fl["shr"]
+    nv = fl.get("name_value", {})
+    pv = present_int(v, r)
+    if not fl["shr"] and stored in fl["enums"] and nv.get(str(fl["enums"][stored]), stored) == stored and r.random() < 0.5:
+        return fl["enums"][stored]
+    if isinstance(pv, str) and pv in nv:
+        return v
+    return pv
+
+
+def make_sizectrl(lay, s, r):
+    """Concretise one case: control bit-fields at a boundary value that selects level s["ctrl"] ("min" / "mid" / "max", "#k": the k-th
+    value of the boundary menu, "mix"), the size bit-field announcing a size of class s["size"] ("eq" / "lt" / "gt", "mix") for the
+    registers that exist THEN, and s["n"] further bit-fields (the content of the conditional registers matters).  [] = the layout has no
+    such case."""
+    cf = ctrl_fields(lay)
+    sf = lay.get("sizefld") or {"r": 0, "f": 0}
+    want, szcls, sub, csub = s.get("ctrl"), s.get("size"), s.get("sub", 0), s.get("csub", s.get("sub", 0))
+    pick = (lambda m: m[sub % len(m)]) if isinstance(sub, int) else (lambda m: r.choice(m))            # the announced size
+    cpick = (lambda m: m[csub % len(m)]) if isinstance(csub, int) else (lambda m: r.choice(m))        # the control value
+    vals, others = {}, set()
+    if cf and want:
+        for c, f in cf:
+            menu = ctrl_menu(lay, c, f)
+            if want == "mix":
+                cand = menu
+            elif want.startswith("#"):
+                cand = menu[int(want[1:]):int(want[1:]) + 1]
+            elif len(cf) == 1:
+                cand = [v for v in menu if ctrl_state(lay, {(c, f): v})[0] == want]
+            else:
+                cand = []          # (several control bit-fields: no real layout has them; levels are not targeted)
+            if not cand:
+                return []
+            vals[(c, f)] = cpick(cand)
+            if len(cf) == 1:
+                others = {ctrl_state(lay, {(c, f): v})[1] for v in menu}
+    elif cf and szcls:
+        return []              # the real size depends on a control bit-field this step does not set
+    elif not cf and want not in (None, "max", "mix", "#0"):
+        return []              # no conditional register: every register exists
+    writes = []
+    if s.get("n"):
+        skip = set(vals) | {(sf["r"], sf["f"])}
+        cregs = [i for i, x in enumerate(lay["regs"], 1) if x["cond"]["c"]]
+        extra = [w for w in make_writes(lay, "field", "rnd", r, s["n"] + 2) if (w[0]["r"], w[0]["f"]) not in skip and w[0]["f"] > 0]
+        if cregs:              # a bit-field of a conditional register is always among them
+            tg = [t for t in targets(lay)["field"] if t[0] in cregs]
+            if tg and not any(w[0]["r"] in cregs for w in extra):
+                ri, fi = r.choice(tg)
+                fl = lay["regs"][ri - 1]["fields"][fi - 1]
+                st = value_of(r.choice(("ones", "alt", "rnd", "one")), fl["width"], r)
+                extra.insert(0, ({"r": ri, "f": fi, "v": A.bits_of(st << fl["shr"]), "aw": 0}, (lay["regs"][ri - 1]["name"], fl["name"], present_field(fl, st, r))))
+        writes += extra[:s["n"]]
+    for (c, f), v in vals.items():
+        fl = lay["regs"][c - 1]["fields"][f - 1]
+        writes.append(({"r": c, "f": f, "v": A.bits_of(v << fl["shr"]), "aw": 0}, (lay["regs"][c - 1]["name"], fl["name"], present_field(fl, v, r))))
+    if sf["r"] and szcls:
+        size = ctrl_state(lay, vals)[1]
+        if size is None:
+            return []
+        cls = szcls if szcls != "mix" else r.choice(("eq", "lt", "gt"))
+        menu = size_menu(lay, cls, size, others - {None})
+        if not menu:
+            return []
+        v = pick(menu)
+        fl = lay["regs"][sf["r"] - 1]["fields"][sf["f"] - 1]
+        writes.append(({"r": sf["r"], "f": sf["f"], "v": A.bits_of(v), "aw": 0}, (lay["regs"][sf["r"] - 1]["name"], fl["name"], present_field(fl, v, r))))
+    if not vals and not (sf["r"] and szcls):
+        return []
+    return writes
 
 
 def present_int(v, r, digits=0):
@@ -378,9 +520,16 @@ class Runner:
             self.ev_post(ev)
             return ev
         if a == "SetValues":
-            writes = make_writes(lay, s.get("cls", "field"), s.get("val", "mix"), r, s.get("n", 6), s.get("edge", False))
+            if s.get("cls") == "sizectrl":
+                writes = make_sizectrl(lay, s, r)
+                if not writes and s.get("fallback"):
+                    writes = make_writes(lay, "field", "mix", r, s.get("n", 2) + 3)
+            else:
+                writes = make_writes(lay, s.get("cls", "field"), s.get("val", "mix"), r, s.get("n", 6), s.get("edge", False))
             ev["w"] = [w for w, _ in writes]
             ev["shown"] = [list(x) for _, x in writes]
+            if not writes:
+                return ev           # the layout has no target of this class: no event
             try:
                 st = settings_of(writes)
                 if ad.incremental:
@@ -414,7 +563,7 @@ class Runner:
                     gi, hb = self.rot_expect
                     g = lay["regs"][gi - 1]
                     ev["rotkh"] = data[g["off"]:g["off"] + g["width"] // 8] == hb.ljust(g["width"] // 8, b"\0")
-                if ad.kind == "xmcd":
+                if ad.kind == "xmcd" and not s.get("nocrc"):
                     ev["crc"] = int.from_bytes(self.obj.crc, "big") == crc32_mpeg2(data)
                 self.bin = data
                 ev["hex"] = data.hex() if len(data) <= 64 else data[:64].hex() + "..."
@@ -495,8 +644,12 @@ def run_trace(ad, lay, sched, r, tid, lay_ref):
     evs = []
     steps = [s for s in sched if ad.has_binary or s["a"] not in ("Export", "Parse")]
     i = 0
+    skip_grp = None
     while i < len(steps):
         s = steps[i]
+        if skip_grp is not None and s.get("grp") == skip_grp:
+            i += 1
+            continue          # the steps that belong to a case the layout does not have
         if s["a"] == "SetValues" and s.get("cls") == "rotkh":
             # export(rotkh=... / keys=...) writes the ROTKH group and exports in ONE call of the real code:
             # logged as the write followed by the export, the state after the write is observed after the call
@@ -518,6 +671,7 @@ def run_trace(ad, lay, sched, r, tid, lay_ref):
         ev = run.step(s)
         i += 1
         if s["a"] == "SetValues" and not ev["w"]:
+            skip_grp = s.get("grp")
             continue
         evs.append(ev)
         if ev.get("ok") is False or (s["a"] == "Template" and not ev["yaml"]):
@@ -548,6 +702,59 @@ SCHED_SWEEP_SHORT = [{"a": "NewObject"}] + [s for vc in ("ones", "alt", "rnd") f
     {"a": "SetValues", "cls": "field", "val": vc, "n": 12}, {"a": "Export"}, {"a": "Parse"}, {"a": "Export"}, {"a": "GetConfig"}, {"a": "LoadConfig"}, {"a": "Export"})]
 
 
+LEVEL_ORDER = ("min", "max", "mid")
+
+
+def sched_sizectrl(cases, tier, slow):
+    """Canonical schedule over the case space TLC enumerated (SizeCtrlCases of CfgArea.tla: size class x control level): every case is a
+    configuration that sets the control bit-field to a boundary value of that level - consecutive cases change the level, so the
+    configuration selects fewer / more registers than the object had - and announces a size of that class for the registers that
+    exist then; every case is exported (size bit-field = real size, decoded from the bytes), parsed and verified.  Steps of a case a
+    layout does not have are skipped (group).  Then the announced size is left STALE while only the control bit-field changes, and
+    (areas that are quick to run) every value of the boundary menu of the control bit-field goes through both round trips."""
+    cases = sorted((tuple(c) for c in cases), key=lambda c: (("eq", "lt", "gt").index(c[0]), LEVEL_ORDER.index(c[1])))
+    st = [{"a": "NewObject"}]
+    g = 0
+    parsed, nth = set(), {}
+    for sz, lv in cases:
+        g += 1
+        # the k-th case of a level takes the k-th boundary value of that level (all of them are reached); the announced size is the nearest
+        # wrong value (real size -1 / +1) at level max, the end of the range (0 / all ones) at level min
+        st.append({"a": "SetValues", "cls": "sizectrl", "ctrl": lv, "size": sz, "csub": nth.get(lv, 0), "sub": {"max": 0, "min": 1}.get(lv, "rnd"), "n": 2, "grp": g})
+        nth[lv] = nth.get(lv, 0) + 1
+        st.append({"a": "Export", "grp": g, "nocrc": slow})
+        if not slow or (sz != "eq" and lv not in parsed):       # (slow areas: one wrong announcement per control level goes through the parser and the verifier)
+            st += [{"a": "Parse", "grp": g}, {"a": "Export", "grp": g, "nocrc": slow}]
+            parsed.add(lv)
+    # the announcement goes STALE: only the control bit-field changes - first in the configuration loaded last (too large now: fewer
+    # registers), then, after both round trips, in the configuration the area has written itself (too small now: more registers)
+    g += 1
+    st += [{"a": "SetValues", "cls": "sizectrl", "ctrl": "min", "size": "", "sub": "rnd", "n": 1, "grp": g}, {"a": "Export", "grp": g}]
+    st += [{"a": "Parse", "grp": g}, {"a": "Export", "grp": g}, {"a": "GetConfig", "check": True, "grp": g}, {"a": "LoadConfig", "grp": g}, {"a": "Export", "nocrc": slow, "grp": g}]
+    g += 1
+    st += [{"a": "SetValues", "cls": "sizectrl", "ctrl": "max", "size": "", "sub": "rnd", "n": 1, "grp": g}, {"a": "Export", "grp": g}]
+    if not slow or tier != "quick":
+        subs = range(1) if tier == "quick" else range(1, 7)
+        for k in range(CTRL_MENU_MAX):
+            for j in subs:
+                for sz in ("eq", "lt", "gt"):
+                    if slow and sz == "eq" and j > 1:
+                        continue
+                    g += 1
+                    st.append({"a": "SetValues", "cls": "sizectrl", "ctrl": f"#{k}", "size": ("eq", "lt", "gt")[(k + j) % 3] if tier == "quick" else sz, "sub": j if tier != "quick" else "rnd",
+                               "n": 3, "grp": g})
+                    st += [{"a": "Export", "grp": g}, {"a": "Parse", "grp": g}, {"a": "Export", "grp": g}]
+                    if not slow:
+                        st += [{"a": "GetConfig", "grp": g}, {"a": "LoadConfig", "grp": g}, {"a": "Export", "grp": g}]
+                    if tier == "quick":
+                        break
+    return st
+
+
+COV_SCHEDULES = ("sizectrl",)      # schedules whose coverage of the case space is demanded (decided by the trace form)
+CTRL_MENU_MAX = 12      # upper bound of the number of boundary values of a control bit-field (checked against the layouts)
+
+
 def rich_hash(lay):
     """Identity of an area's database content: everything the layout extraction read (names, enums, offsets, presets, groups ...)."""
     return sha({k: x for k, x in lay.items() if k not in ("by_uid", "files")})
@@ -558,7 +765,9 @@ def layout_job(ident):
     try:
         lay = A.make(ident).layout()
         A.tla_layout(lay)
-        return {"area": ident, "hash": rich_hash(lay)}
+        cf = ctrl_fields(lay)
+        return {"area": ident, "hash": rich_hash(lay), "sizectrl": bool(cf) or bool((lay.get("sizefld") or {}).get("r")),
+                "nmenu": max([len(ctrl_menu(lay, c, f)) for c, f in cf] or [0])}
     except Exception as e:  # noqa: BLE001
         return {"area": ident, "error": f"layout: {type(e).__name__}: {e}"[:300]}
 
@@ -574,10 +783,11 @@ def area_job(job):
         return {"area": ident, "error": f"layout: {type(e).__name__}: {e}"[:300]}
     tl = A.tla_layout(lay)
     h = sha(tl)
-    traces = [{"id": f"{ad.key()}#layout", "lay": h, "area": ident, "ev": [{"a": "Layout"}]}]
+    traces = [] if job.get("nolayout") else [{"id": f"{ad.key()}#layout", "lay": h, "area": ident, "ev": [{"a": "Layout"}]}]
     for name, sched in job["scheds"]:
         r = rng(PROP, ad.key(), name)
         traces.append(run_trace(ad, lay, sched, r, f"{ad.key()}#{name}", h))
+        traces[-1]["cov"] = name in COV_SCHEDULES
     names = [x["name"] for x in lay["regs"]]
     info = {"groups": [{"name": g["name"], "declared": g.get("decl_width", 0), "present": g.get("subs_width", 0), "missing": g.get("missing_subs", [])}
                        for g in lay["regs"] if g["kind"] == "group" and (g.get("missing_subs") or (g.get("decl_width") and g["decl_width"] != g.get("subs_width")))],
@@ -624,21 +834,27 @@ def validate(v, results, label):
     def tv_chunk(k):
         chunk = chunks[k]
         tlc._counter[0] = 1000 * (k + 1)            # forked children share the scratch directory: keep file names apart
-        slim = [{"id": n, "lay": t["lay"], "ev": t["ev"]} for n, t in enumerate(chunk)]
+        slim = [{"id": n, "lay": t["lay"], "ev": t["ev"], "cov": bool(t.get("cov"))} for n, t in enumerate(chunk)]
         rej, res = tlc.tv(SPEC, "CfgAreaTrace", slim, env={"LAYOUT_FILE": lay_file}, heap="6g", timeout=1500)
         check_tv_output(res, rej)
         lays = res.tuples("LAY")
         if len(lays) != res.out.count('<<"LAY"'):
             raise Machinery("a LAY line of the trace validation could not be read back")
-        return {chunk[n]["id"]: x for n, x in rej.items()}, res.distinct, [(chunk[x[0]]["id"], x[1], x[2]) for x in lays]
+        appl, covd = res.tuples("APPL"), res.tuples("COV")
+        if len(appl) != res.out.count('<<"APPL"') or len(covd) != res.out.count('<<"COV"'):
+            raise Machinery("an APPL / COV line of the trace validation could not be read back")
+        cases = [(chunk[x[0]]["id"], "appl", x[1], x[2]) for x in appl] + [(chunk[x[0]]["id"], "cov", x[2], x[3]) for x in covd]
+        return {chunk[n]["id"]: x for n, x in rej.items()}, res.distinct, [(chunk[x[0]]["id"], x[1], x[2]) for x in lays], cases
 
-    rej_all, lay_all = {}, []
-    for rej, distinct, lays in pmap(tv_chunk, range(nchunks), procs=min(nchunks, 8), chunksize=1) if nchunks >= 4 else [tv_chunk(k) for k in range(nchunks)]:
+    rej_all, lay_all, case_all = {}, [], []
+    for rej, distinct, lays, cases in pmap(tv_chunk, range(nchunks), procs=min(nchunks, 8), chunksize=1) if nchunks >= 4 else [tv_chunk(k) for k in range(nchunks)]:
         rej_all.update(rej)
         lay_all += lays
+        case_all += cases
         v.extra["tv_states"] = v.extra.get("tv_states", 0) + distinct
     v.traces(len(traces))
     validate.layout_findings = lay_all
+    validate.cases = case_all
     return rej_all, names
 
 
@@ -694,6 +910,35 @@ def report(v, results, rej, names):
                                 "schedule": [{k: x for k, x in e.items() if k in ("a", "seal", "w", "shown")} for e in t["ev"]], "info": res.get("info")})
 
 
+def demand_case_coverage(v, results, rej):
+    """Every case (size class x control level) that exists on the layout of an area - as the trace form computed it - was executed on the
+    real area by its `sizectrl` schedule - as the trace form classified the configurations that were really loaded.  A trace that was
+    rejected (a finding) stops early and is exempt."""
+    appl, cov = {}, {}
+    for tid, what, sz, lv in getattr(validate, "cases", []):
+        (appl if what == "appl" else cov).setdefault(tid, set()).add((sz, lv))
+    want = [t["id"] for x in results for t in x.get("traces", []) if t.get("cov")]
+    missing = {}
+    for tid in want:
+        if tid in rej:
+            continue
+        if not appl.get(tid):
+            raise Machinery(f"trace {tid}: the trace form did not report the cases of its layout")
+        lack = appl[tid] - cov.get(tid, set())
+        if lack:
+            missing[tid] = sorted(lack)
+    if missing:
+        raise Machinery(f"vacuous cases: the sizectrl schedule did not reach every (size class, control level) of {len(missing)} areas, e.g. {list(missing.items())[:3]}")
+    table = {}
+    for tid in want:
+        kind = tid.split("/", 1)[0]
+        for c in cov.get(tid, ()):
+            table.setdefault(kind, {}).setdefault("/".join(c), 0)
+            table[kind]["/".join(c)] += 1
+    v.extra["size_ctrl_cases_executed"] = {k: dict(sorted(x.items())) for k, x in sorted(table.items())}
+    v.extra["size_ctrl_areas"] = len(want)
+
+
 def check_registers_copy(v):
     from lib.common import SPEC as SPECDIR
 
@@ -704,10 +949,20 @@ def check_registers_copy(v):
         say("[C12] note: spec/C12/Registers.tla differs from spec/C11/Registers.tla")
 
 
+def mc_job(base, tiny_file, level, menu, timeout):
+    tlc._counter[0] = base          # forked children share the scratch directory: keep file names apart
+    return tlc.mc(SPEC, "CfgAreaMC", "CfgAreaMC.cfg", env={"LAYOUT_FILE": tiny_file, "MC_LEVEL": level, "MENU": menu}, heap="8g", timeout=timeout, require_actions=REQ_ACTIONS)
+
+
 def gen_schedules(v, tiny_file, num, depth):
     g = tlc.run(SPEC, "CfgAreaGen", "CfgAreaGen.cfg", env={"LAYOUT_FILE": tiny_file, "GEN_DEPTH": depth, "MC_LEVEL": 99, "MENU": "full"}, workers=1, deadlock=False,
                 simulate=f"num={num}", depth=depth + 3, heap="4g", timeout=300)
-    behs = g.json_prints()
+    prints = g.json_prints()
+    behs = [b for b in prints if "hist" in b]
+    cases = [b["cases"] for b in prints if "cases" in b]
+    if len(cases) != 1 or len(cases[0]) != 9:
+        raise Machinery(f"GEN did not print the case space (size class x control level): {cases}")
+    gen_schedules.cases = [tuple(c) for c in cases[0]]
     if len(behs) < max(3, num // 2):
         raise Machinery(f"GEN produced only {len(behs)} schedules:\n{g.out[-1500:]}")
     v.add_mc(g)
@@ -716,7 +971,9 @@ def gen_schedules(v, tiny_file, num, depth):
     for b in behs:
         steps = [{"a": "NewObject"}]
         for h in b["hist"]:
-            if h["a"] == "SetValues":
+            if h["a"] == "SetValues" and h["cls"] == "sizectrl":
+                steps.append({"a": "SetValues", "cls": "sizectrl", "ctrl": h["lv"], "size": h["sz"] if h["sz"] != "-" else "mix", "sub": "rnd", "n": 2, "fallback": True})
+            elif h["a"] == "SetValues":
                 steps.append({"a": "SetValues", "cls": h["cls"], "val": "mix", "n": 5})
             elif h["a"] == "Export":
                 steps.append({"a": "Export", "seal": bool(h["seal"])})
@@ -734,13 +991,14 @@ def run(tier):
     # ---- MC on the small layouts
     tiny = tiny_layouts()
     tiny_file = write_layouts([A.tla_layout(x) for x in tiny], "c12-tiny.json")
-    mc = tlc.mc(SPEC, "CfgAreaMC", "CfgAreaMC.cfg", env={"LAYOUT_FILE": tiny_file, "MC_LEVEL": 3, "MENU": "small" if tier == "quick" else "full"}, heap="8g", timeout=900,
-                require_actions=REQ_ACTIONS)
-    v.add_mc(mc)
+    # (the model checking runs in processes of their own while the real areas are driven; its result is demanded before the verdict)
+    import multiprocessing
+
+    mc_pool = multiprocessing.get_context("fork").Pool(1 if tier == "quick" else 2)
+    mc_runs = [mc_pool.apply_async(mc_job, (9000, tiny_file, 3, "small" if tier == "quick" else "full", 900))]
     if tier != "quick":
-        mc2 = tlc.mc(SPEC, "CfgAreaMC", "CfgAreaMC.cfg", env={"LAYOUT_FILE": tiny_file, "MC_LEVEL": 4, "MENU": "small"}, heap="8g", timeout=1500, require_actions=REQ_ACTIONS)
-        v.add_mc(mc2)
-    say(f"[C12] MC done {v.timer.s()}s: {v.cov['states']} states, {v.cov['transitions']} transitions")
+        mc_runs.append(mc_pool.apply_async(mc_job, (9500, tiny_file, 4, "small", 1500)))
+    mc_pool.close()
 
     # ---- GEN: schedules
     scheds = gen_schedules(v, tiny_file, 24 if tier == "quick" else 120, 8 if tier == "quick" else 10)
@@ -764,6 +1022,8 @@ def run(tier):
         raise Machinery(f"layout extraction failed for {len(errs)} areas, e.g. {errs[0]}")
     # areas with identical database content form one class: its representative (a latest revision if there is one) runs the full
     # schedules, every other member is still instantiated once (alias schedule); the thorough tier runs everything on everybody
+    if max(h["nmenu"] for h in hashes) > CTRL_MENU_MAX:
+        raise Machinery(f"a control bit-field has {max(h['nmenu'] for h in hashes)} boundary values, the canonical schedule provides for {CTRL_MENU_MAX}")
     groups = {}
     for a, h in zip(areas, hashes):
         groups.setdefault((a["kind"], a["sub"], h["hash"]), []).append(a)
@@ -773,7 +1033,7 @@ def run(tier):
         reps.add(json.dumps({k: members[0][k] for k in ("kind", "family", "rev", "sub")}, sort_keys=True))
     say(f"[C12] layouts extracted {v.timer.s()}s: {len(groups)} classes of identical database content")
     jobs = []
-    n_full = 0
+    n_full = n_sizectrl = 0
     for idx, (a, ident) in enumerate(zip(areas, idents)):
         is_rep = json.dumps(ident, sort_keys=True) in reps
         if is_rep or tier != "quick":
@@ -792,20 +1052,25 @@ def run(tier):
         else:
             sl = [("alias", SCHED_ALIAS if (A.KINDS[a["kind"]].has_binary and a["kind"] != "xmcd") else SCHED_ALIAS_NOBIN)]
         jobs.append({"area": ident, "scheds": sl})
+        # areas with a size bit-field or a control bit-field: the cases TLC enumerated, as a job of its own (the pool stays balanced)
+        slow = a["kind"] in SLOW_KINDS
+        if hashes[idx]["sizectrl"] and (is_rep or (tier != "quick" and not slow)):
+            jobs.append({"area": ident, "nolayout": True, "scheds": [("sizectrl", sched_sizectrl(gen_schedules.cases, tier if is_rep else "quick", slow))]})
+            n_sizectrl += 1
     # heavy kinds first, so that the pool is balanced
     weight = {"fuses": 9, "cmpa": 6, "cfpa": 6, "tz": 5, "romcfg": 4, "fcb": 3, "xmcd": 3, "bca": 2, "fcf": 2, "cmactable": 2, "memcfg": 1}
-    jobs.sort(key=lambda j: -weight.get(j["area"]["kind"], 1) * (10 if len(j["scheds"]) > 1 else 1) * len(j["scheds"]))
+    jobs.sort(key=lambda j: -weight.get(j["area"]["kind"], 1) * (10 if len(j["scheds"]) > 1 or j.get("nolayout") else 1) * (2 if j.get("nolayout") else len(j["scheds"])))
     results = pmap(area_job, jobs, chunksize=1)
-    say(f"[C12] real runs done {v.timer.s()}s ({n_full} areas with the full schedules, {len(jobs) - n_full} alias instantiations)")
+    say(f"[C12] real runs done {v.timer.s()}s ({n_full} areas with the full schedules, {len(jobs) - n_full - n_sizectrl} alias instantiations, {n_sizectrl} size / control case runs)")
     errs = [x for x in results if "error" in x]
     if errs:
         raise Machinery(f"layout extraction failed for {len(errs)} areas, e.g. {errs[0]}")
     slow = sorted(results, key=lambda x: -x["wall"])[:6]
-    v.extra["slowest_areas_s"] = {A.make(x["area"]).key(): round(x["wall"], 1) for x in slow}
+    v.extra["slowest_areas_s"] = {A.make(x["area"]).key() + ("#sizectrl" if any(t.get("cov") for t in x["traces"]) else ""): round(x["wall"], 1) for x in slow}
     v.extra["cpu_s_real_runs"] = round(sum(x["wall"] for x in results), 1)
     bykind = {}
     for x in results:
-        k = x["area"]["kind"] + ("" if len(x["traces"]) > 2 else "(alias)")
+        k = x["area"]["kind"] + ("(sizectrl)" if any(t.get("cov") for t in x["traces"]) else "" if len(x["traces"]) > 2 else "(alias)")
         bykind[k] = round(bykind.get(k, 0) + x["wall"], 1)
     v.extra["cpu_s_by_kind"] = bykind
     say(f"[C12] cpu {v.extra['cpu_s_real_runs']}s {bykind}, slowest: {v.extra['slowest_areas_s']}")
@@ -826,7 +1091,12 @@ def run(tier):
 
     rej, names = validate(v, results, "all")
     say(f"[C12] TV done {v.timer.s()}s: {len(rej)} traces rejected")
+    for x in mc_runs:
+        v.add_mc(x.get(timeout=1800))         # (a failed lemma / a vacuous action raises Machinery here)
+    mc_pool.join()
+    say(f"[C12] MC done {v.timer.s()}s: {v.cov['states']} states, {v.cov['transitions']} transitions (GEN included)")
     report(v, results, rej, names)
+    demand_case_coverage(v, results, rej)
     for x in results:
         for t in x["traces"]:
             if t["id"] not in rej and t["id"].endswith("#values") and x["area"]["kind"] in ("cmpa", "xmcd", "fuses", "tz", "memcfg"):
@@ -841,7 +1111,10 @@ def run(tier):
         "schedule and the value schedule (boundary-menu values for seeded bit-fields, registers, groups, computed registers, seal, ROTKH over the full declared width, a "
         "second object after the first was customised and exported) and every other member is instantiated once (alias schedule); the thorough tier runs the full schedules "
         f"on every area; a seeded share of the representatives additionally replays TLC-generated schedules ({len(scheds)} from CfgAreaGen -simulate); one layout-consistency "
-        "trace per area; distinct_nontrivial = distinct traces (area x schedule) in which at least one state was transported through the real code (SetValues / LoadConfig / Parse)")
+        "trace per area; areas with a size bit-field or a control bit-field (XMCD, option words) additionally run the case space TLC enumerates (SizeCtrlCases: announced size "
+        "equal / too small / too large x control level none / some / all conditional registers, consecutive cases flip the level, then the announcement left stale while the "
+        "control bit-field changes, then every boundary value of the control bit-field) - the trace form classifies every configuration that was really loaded and the run "
+        "fails as machinery unless every case that exists on the layout was executed; distinct_nontrivial = distinct traces (area x schedule) in which at least one state was transported through the real code (SetValues / LoadConfig / Parse)")
     v.extra["checker_cmd"] = "tlc2.TLC CfgAreaMC (lemmas), CfgAreaGen -simulate (schedules), CfgAreaTrace (batch trace validation, one JVM per chunk)"
     v.extra["trusted_base"] = ["TLC", "spec/C12/Registers.tla + CfgArea.tla", "database files read directly (json / PyYAML)", "PyYAML safe_load as YAML judge", "hashlib",
                                "cryptography (EC key generation only)", "bit-serial CRC-32/MPEG-2 in the harness", "documented binary sizes of the reference manuals"]
@@ -854,12 +1127,16 @@ ASSUMPTIONS = [
     "on binaries whose reserved words hold their presets (which is what export of a configured object produces) - counted as an observation, not asserted",
     "computed registers are configured through their visible bit-fields (the documented trigger of the recomputation); a whole-register value or an explicit value of the "
     "computed bit-field itself is taken literally by SPSDK and is outside the asserted domain; a computed register that no configuration named keeps its preset",
-    "registers that identify a binary for its own parser or the area itself (FCB tag/version, BCA TAG, XMCD header) are not written by generated actions",
+    "registers that identify a binary for its own parser or the area itself (FCB tag/version, BCA TAG, XMCD header: tag, version, memory interface, block type) are not "
+    "written by generated actions; the one DERIVED bit-field of the XMCD header, configurationBlockSize, is: a configuration may announce any in-range size (right, too "
+    "small, too large) and the exported header must describe the exported block (the format defines the field as the size of header + block, XMCD.verify demands it, "
+    "load_from_config documents the replacement: 'The calculated value will be used instead')",
     "a value that fits into a narrower alternative width of a group is a value of that width (first sub-registers only); values with leading zero bytes are therefore "
     "generated together with the width the database rule selects",
     "fuse maps have no binary form in SPSDK: only template / load / configuration round trip / second object are asserted for them; shadow registers are not importable here",
     "memory-configuration option words and XMCD blocks transport only the registers that exist for the current control bit-field (option size / timing mode); their size is the "
-    "size of those registers; TrustZone has no configuration writer - the customisations parsed from the binary are taken as its configuration",
+    "size of those registers; the control bit-field is driven through the boundary values of every condition (the configuration selects fewer / more registers than "
+    "the object had), registers that do not exist are not asserted; TrustZone has no configuration writer - the customisations parsed from the binary are taken as its configuration",
     "documented sizes: PFR pages 512, ROMCFG 304, CMAC table 128, BCA 64, FCF 16, FCB 512 bytes, TrustZone 4 bytes per preset register (reference manuals); gap fill value "
     "must be one constant byte, which one is not asserted",
     "registers whose JSON description overlaps another register (CMAC table) are asserted through byte stability of the export only, not per register",
@@ -872,34 +1149,38 @@ def canary(v, tiny_tla, tiny_file, behs):
     b = next((x for x in behs if x["lay"] == 1 and any(h["a"] == "SetValues" for h in x["hist"]) and any(h["a"] == "Export" for h in x["hist"])), None)
     if b is None:
         raise Machinery("canary: no generated behaviour with a write and an export on the first small layout")
-    lay = tiny_tla[b["lay"] - 1]
-    n = len(lay["regs"])
+    def events_of(b):
+        lay = tiny_tla[b["lay"] - 1]
+        n = len(lay["regs"])
 
-    def state(post):
-        if isinstance(post, list):
-            post = {str(i + 1): x for i, x in enumerate(post)}
-        return [sorted(post.get(str(i), [])) if lay["regs"][i - 1]["kind"] == "leaf" else [] for i in range(1, n + 1)]
+        def state(post):
+            if isinstance(post, list):
+                post = {str(i + 1): x for i, x in enumerate(post)}
+            return [sorted(post.get(str(i), [])) if lay["regs"][i - 1]["kind"] == "leaf" else [] for i in range(1, n + 1)]
 
-    evs = [{"a": "NewObject", "ok": True, "struct": True, "post": [list(r["preset"]) if r["kind"] == "leaf" else [] for r in lay["regs"]]}]
-    prev_bin = None
-    for h in b["hist"]:
-        a = h["a"]
-        if a == "NewObject":
-            evs.append({"a": a, "ok": True, "struct": True, "post": state(h["post"])})
-        elif a == "Template":
-            evs.append({"a": a, "ok": True, "yaml": True, "schema": True})
-        elif a == "GetConfig":
-            evs.append({"a": a, "ok": True, "yaml": True, "schema": True})
-        elif a in ("LoadConfig",):
-            evs.append({"a": a, "ok": True, "post": state(h["post"])})
-        elif a == "Parse":
-            evs.append({"a": a, "ok": True, "verified": True, "post": state(h["post"])})
-        elif a == "SetValues":
-            evs.append({"a": a, "ok": True, "w": [{"r": w["r"], "f": w["f"], "v": list(w["v"]), "aw": w["aw"]} for w in h["w"]], "post": state(h["post"])})
-        elif a == "Export":
-            cur = state(h["post"])
-            evs.append({"a": a, "ok": True, "seal": bool(h["seal"]), "size": h["size"], "gaps": True, "bin": cur, "eqprev": cur == prev_bin, "rotkh": True, "crc": True})
-            prev_bin = cur
+        evs = [{"a": "NewObject", "ok": True, "struct": True, "post": state(b["fresh"])}]
+        prev_bin = None
+        for h in b["hist"]:
+            a = h["a"]
+            if a == "NewObject":
+                evs.append({"a": a, "ok": True, "struct": True, "post": state(h["post"])})
+            elif a == "Template":
+                evs.append({"a": a, "ok": True, "yaml": True, "schema": True})
+            elif a == "GetConfig":
+                evs.append({"a": a, "ok": True, "yaml": True, "schema": True})
+            elif a in ("LoadConfig",):
+                evs.append({"a": a, "ok": True, "post": state(h["post"])})
+            elif a == "Parse":
+                evs.append({"a": a, "ok": True, "verified": True, "post": state(h["post"])})
+            elif a == "SetValues":
+                evs.append({"a": a, "ok": True, "w": [{"r": w["r"], "f": w["f"], "v": list(w["v"]), "aw": w["aw"]} for w in h["w"]], "post": state(h["post"])})
+            elif a == "Export":
+                cur = state(h["post"])
+                evs.append({"a": a, "ok": True, "seal": bool(h["seal"]), "size": h["size"], "gaps": True, "bin": cur, "eqprev": cur == prev_bin, "rotkh": True, "crc": True})
+                prev_bin = cur
+        return evs
+
+    evs = events_of(b)
     good = {"id": 0, "lay": b["lay"], "ev": evs}
     bads = []
     i1 = next(i for i, e in enumerate(evs) if e["a"] == "SetValues")
@@ -916,6 +1197,24 @@ def canary(v, tiny_tla, tiny_file, behs):
     t = json.loads(json.dumps(good))
     t["ev"][i2]["gaps"] = False
     bads.append((t, "GapsFilled"))
+    # the size / control dimension on the second small layout: a generated behaviour in which a configuration announces a WRONG size
+    # (too small / too large) while its control bit-field changes the set of registers is accepted - and classified case by case as
+    # the generator labelled it; the same trace in which the announced size SURVIVES in the object is rejected
+    b2 = next((x for x in behs if x["lay"] == 2 and any(h["a"] == "SetValues" and h["cls"] == "sizectrl" and h["sz"] in ("lt", "gt") for h in x["hist"])), None)
+    if b2 is None:
+        raise Machinery("canary: no generated behaviour with a wrong announced size on the second small layout")
+    lay2 = tiny_tla[1]
+    sf = lay2["sizefld"]
+    fl = lay2["regs"][sf["r"] - 1]["fields"][sf["f"] - 1]
+    good2 = {"id": 50, "lay": 2, "ev": events_of(b2), "cov": True}
+    labels = [(1 + k + 1, h["sz"], h["lv"]) for k, h in enumerate(b2["hist"]) if h["a"] == "SetValues" and h["cls"] == "sizectrl"]      # (event number, case)
+    k2 = next(k for k, h in enumerate(b2["hist"]) if h["a"] == "SetValues" and h["cls"] == "sizectrl" and h["sz"] in ("lt", "gt"))
+    t = json.loads(json.dumps(good2))
+    announced = next(w["v"] for w in reversed(b2["hist"][k2]["w"]) if (w["r"], w["f"]) == (sf["r"], sf["f"]))
+    hdr = t["ev"][k2 + 1]["post"][sf["r"] - 1]
+    t["ev"][k2 + 1]["post"][sf["r"] - 1] = sorted([x for x in hdr if not fl["off"] <= x < fl["off"] + fl["width"]] + [x + fl["off"] for x in announced])
+    t["cov"] = False
+    bads.append((t, "SetValues"))
     for k, (t, _) in enumerate(bads, 1):
         t["id"] = k
     # layout clauses: the small layouts are consistent, a copy with a group declared wider than its sub-registers is not
@@ -924,15 +1223,20 @@ def canary(v, tiny_tla, tiny_file, behs):
     bad_lay["regs"][gi]["declw"] = bad_lay["regs"][gi]["subsw"] + 32
     cfile = write_layouts(tiny_tla + [bad_lay], "c12-canary-layouts.json")
     lay_traces = [{"id": 100 + k, "lay": k + 1, "ev": [{"a": "Layout"}]} for k in range(len(tiny_tla) + 1)]
-    rej, cres = tlc.tv(SPEC, "CfgAreaTrace", [good] + [t for t, _ in bads] + lay_traces, env={"LAYOUT_FILE": cfile}, heap="4g")
+    rej, cres = tlc.tv(SPEC, "CfgAreaTrace", [good, good2] + [t for t, _ in bads] + lay_traces, env={"LAYOUT_FILE": cfile}, heap="4g")
     check_tv_output(cres, rej)
+    appl = sorted((x[1], x[2]) for x in cres.tuples("APPL") if x[0] == 50)
+    covd = sorted((x[1], x[2], x[3]) for x in cres.tuples("COV") if x[0] == 50)
+    if appl != sorted((sz, lv) for sz in ("eq", "lt", "gt") for lv in ("min", "max")) or covd != sorted(labels):
+        raise Machinery(f"canary failed: cases of the second small layout {appl}, configurations classified as {covd}, generated as {labels}")
     want = {k: c for k, (_, c) in enumerate(bads, 1)}
     got = {k: x[3] for k, x in rej.items()}
     lays = [tuple(x[:2]) for x in cres.tuples("LAY")]
     if got != want or lays != [(100 + len(tiny_tla), "GroupsConsistent")]:
         raise Machinery(f"canary failed: rejected {rej}, layout findings {lays}; expected exactly {want} and GroupsConsistent on the inconsistent copy only")
     v.extra["canary"] = ("a behaviour generated by the spec (states included) is accepted as a trace; the same trace with one flipped state bit / a wrong export size / "
-                         "one flipped bit of the decoded binary / a false gap fact is rejected at clauses " + ", ".join(want.values()))
+                         "one flipped bit of the decoded binary / a false gap fact / an announced wrong size that survives in the object is rejected at clauses " + ", ".join(want.values()) +
+                         "; the configurations of a generated behaviour that write the size / control bit-fields are classified by the trace form exactly as generated")
 
 
 def probe_hidden(v):
@@ -973,8 +1277,7 @@ def replay(path):
         say(f"  {e['a']:<10} {json.dumps(e.get('shown'))[:160] if e.get('shown') else ''} {facts}")
     t["ev"] = [strip_event(e) for e in t["ev"]]
     lay_file = write_layouts([tl], "c12-replay-layout.json")
-    t["id"] = 0
-    rej, rres = tlc.tv(SPEC, "CfgAreaTrace", [t], env={"LAYOUT_FILE": lay_file}, heap="4g")
+    rej, rres = tlc.tv(SPEC, "CfgAreaTrace", [{"id": 0, "lay": t["lay"], "ev": t["ev"]}], env={"LAYOUT_FILE": lay_file}, heap="4g")
     check_tv_output(rres, rej)
     lays = rres.tuples("LAY")
     if lays:
